@@ -158,6 +158,13 @@ pub fn streams() -> Vec<Box<dyn AnyStream>> {
             check: Box::new(check_string),
         }),
         Box::new(Stream::<VCase> {
+            name: "decoration-fields",
+            quick: 0,
+            thorough: 0,
+            source: Source::Enum(Box::new(|_| Box::new(decoration_space().into_iter().map(|x| VCase { class: "decoration".into(), x })))),
+            check: Box::new(check_value),
+        }),
+        Box::new(Stream::<VCase> {
             name: "values",
             quick: 30_000,
             thorough: 2_000_000,
@@ -169,7 +176,7 @@ pub fn streams() -> Vec<Box<dyn AnyStream>> {
 
 pub const PROP: Prop = Prop {
     id: "C05",
-    rule: "stream strings: (lexical format, string ≤ 512 chars / ≤ 64 opening brackets) from keyword soup, mutated valid values (incl. truncation inside keywords), deep unterminated nests, arbitrary Unicode, valid values → parse and parse_term (and fold when accepted) must return; stream values: arbitrary lexical values (every field a wild string: unknown prefixes/connecters/copulas, NaN/inf/1e400/-0/+7, malformed stamps, arities 0..5, images without placeholder) and near-valid edits of arity-valid values, folded with each of the 3 enum formats; evaluations count calls; non-trivial = string contains a keyword / value has depth ≥ 2; distinct by fingerprint",
+    rule: "stream strings: (lexical format, string ≤ 512 chars / ≤ 64 opening brackets) from keyword soup, mutated valid values (incl. truncation inside keywords), deep unterminated nests, arbitrary Unicode, valid values → parse and parse_term (and fold when accepted) must return; stream values: arbitrary lexical values (every field a wild string: unknown prefixes/connecters/copulas, NaN/inf/1e400/-0/+7, malformed stamps, arities 0..5, images without placeholder) and near-valid edits of arity-valid values, folded with each of the 3 enum formats; stream decoration-fields enumerates a valid one-atom judgement / task with exactly one of stamp, truth entry, budget entry or punctuation replaced by every degenerate text (the wild pool, every proper prefix and suffix of every keyword and decoration bracket, boundary numerals); evaluations count calls; non-trivial = string contains a keyword / value has depth ≥ 2; distinct by fingerprint",
     assumptions: &["panics observed through catch_unwind; bounded time approximated by the 20 s watchdog + isolated 60 s confirmation"],
     streams,
 };
